@@ -48,7 +48,8 @@ def cases(draw, tier):
     rec = draw(st.booleans())
     wts = (0.0, 0.25, 0.5, 1.0) if rec else (0.0, 0.25, 0.5, 1.0, 2.0, 3.0)
     base = gen_fgg.specs(recursive=rec, weights=wts, max_nts=3, max_dom=2, max_edges=3, max_nodes=5)
-    spec = draw(gen_fgg.patterned(base, weights=wts, p_bcast=0.0) if draw(st.integers(0, 2)) == 0 else base)
+    # patterned weights, a third of them with a default that is not the semiring zero (elements outside the pattern have weight 1 or 1/2)
+    spec = draw(gen_fgg.patterned(base, weights=wts, p_bcast=0.0, defaults=(0.0, 0.0, 1.0, 0.5)) if draw(st.integers(0, 2)) == 0 else base)
     other = draw(gen_fgg.specs(recursive=False, weights=(0.5, 1.0), max_nts=2, max_dom=2, max_edges=2, max_nodes=4))
     nq = draw(st.integers(4, 10))
     qs = []
@@ -166,8 +167,10 @@ def run_query(q, fgg, info, other, spec, ctx):
             if q['n'] % 3 == 0:
                 return canon_hrg(fggs.conjoin_hrgs(g, other) if q['n'] % 2 else fggs.conjoin_hrgs(other, g))
             return canon_hrg(fggs.conjoin_hrgs(fgg['cj1'], fgg['cj2']) if q['n'] % 2 else fggs.conjoin_hrgs(fgg['cj2'], fgg['cj1']))
-        if q['q'] == 'fgg_to_json': return json.dumps(fggs.fgg_to_json(g), sort_keys=True)
-        if q['q'] == 'hrg_to_json': return json.dumps(fggs.hrg_to_json(g), sort_keys=True)
+        # the JSON writers are asked about the grammar of the query's semiring: Log/Viterbi weights contain -inf
+        gj = fgg[kind]
+        if q['q'] == 'fgg_to_json': return json.dumps(fggs.fgg_to_json(gj), sort_keys=True)
+        if q['q'] == 'hrg_to_json': return json.dumps(fggs.hrg_to_json(gj), sort_keys=True)
     raise ValueError(q['q'])
 
 
